@@ -256,6 +256,8 @@ func c07Program(lit string, variant int) string {
 		return "{\n  {\n    x = " + lit + ";\n  }\n}\n"
 	case 2:
 		return "x = [0, " + lit + "][1];"
+	case 3: // the literal as the object of a property access (needed by seeded/C07-m6)
+		return "x = " + lit + " .valueOf();"
 	}
 	return "x = " + lit + ";"
 }
@@ -328,6 +330,9 @@ func (k *c07Run) check(lit string, variant int, cfg string, steer bool) {
 			if variant == 2 {
 				before, after = ',', "][1;} \n\t"
 			}
+			if variant == 3 {
+				after = " .valueOf();}\n\t"
+			}
 			eq := strings.IndexByte(out, before)
 			if eq < 0 || !strings.HasPrefix(strings.TrimLeft(out, "{ \n\t"), "x") {
 				fail("the emitted program does not have the shape x = <literal>")
@@ -342,11 +347,14 @@ func (k *c07Run) check(lit string, variant int, cfg string, steer bool) {
 			case bad != "":
 				fail("emitted literal malformed: " + bad)
 				structural = true
-			case strings.Trim(out[end:], after) != "":
+			case strings.Trim(out[end:], after) != "" && !(variant == 3 && strings.HasSuffix(out[at:end], ".valueOf") && strings.Trim(out[end:], "();} \n\t") == ""):
 				fail(fmt.Sprintf("emitted literal %q is followed by %q (delimiter inside the literal not escaped)", oaClip(out[at:end], 80), oaClip(out[end:], 40)))
 				structural = true
 			default:
 				em := out[at:end]
+				if variant == 3 { // the scanner takes `.valueOf` behind a radix-prefixed literal for part of the number
+					em = strings.TrimSuffix(em, ".valueOf")
+				}
 				sq, eq2 := c07LitKind(lit), c07LitKind(em)
 				if sq != eq2 {
 					fail(fmt.Sprintf("a %s literal is emitted as %q", sq, oaClip(em, 80)))
@@ -395,6 +403,11 @@ func (k *c07Run) lit(lit string, steer bool, extra ...string) {
 		}
 		for _, cfg := range extra {
 			k.check(lit, variant, cfg, steer)
+		}
+	}
+	if c07LitKind(lit) == "num" || len(lit)%5 == 0 {
+		for _, cfg := range c07Cfgs {
+			k.check(lit, 3, cfg, steer)
 		}
 	}
 }
